@@ -294,7 +294,7 @@ impl AssetCategorizer {
 
         let mut new_size = self.set_min_ada_for_tx(&mut new_proposal)?;
 
-        if new_proposal.get_need_ada()? > Coin::zero() {
+        while new_proposal.get_need_ada()? > Coin::zero() {
             let next_utxos =
                 self.get_next_pure_ada_utxo_by_amount(&new_proposal.get_need_ada()?, &used_utxos)?;
 
